@@ -83,6 +83,28 @@ func main() {
 			p := props[id]
 			fmt.Printf("%s quick=%s thorough=+%s\n", id, strings.Join(p.Quick, ","), strings.Join(p.Thorough, ","))
 		}
+	case "sym":
+		c := NewCtx("adhoc", tier, repo, verif)
+		p := c.G()
+		fd := p.Func(pos[0])
+		if fd == nil {
+			fmt.Println("no such function")
+			os.Exit(2)
+		}
+		sps, ok := p.SymPaths(fd, 100000, nil)
+		fmt.Println("paths:", len(sps), ok)
+		for i, sp := range sps {
+			if len(pos) > 1 && fmt.Sprint(i) != pos[1] {
+				continue
+			}
+			fmt.Printf("--- path %d feasible=%v\n", i, sp.Feasible())
+			for _, cd := range sp.Conds {
+				fmt.Println("   cond:", cd.String())
+			}
+			for _, ef := range sp.Effects {
+				fmt.Printf("   %s %s base=%s val=%s args=%v\n", ef.Kind, ef.Target, ef.Base, ef.Val.String(), ef.Args)
+			}
+		}
 	case "describe":
 		b, _ := json.MarshalIndent(props, "", " ")
 		fmt.Println(string(b))
